@@ -183,13 +183,17 @@ def run_unit(u, rec):
                         rec.check(True, "", "")
                     continue
                 gen = ic.RandomDiscontinuities(D, domain_extent=L, num_discontinuities=nd, zero_mean=zm, std_one=so, max_one=mo)
+                raw_gen = ic.RandomDiscontinuities(D, domain_extent=L, num_discontinuities=nd)
                 for key in keys:
                     info = dict(D=D, N=N, L=L, flags=[zm, so, mo], num=nd, key=key)
+                    raw = np.asarray(raw_gen(N, key=jax.random.PRNGKey(key)))
+                    if float(np.std(raw)) < 1e-12:
+                        # degenerate draw (no grid point inside any box => constant field): every normalisation is 0/0, outside the contract
+                        rec.dim("skipped_degenerate_draw", f"D={D}|N={N}|L={L}|num={nd}|key={key}")
+                        continue
                     a = twice(rec, g, gen, N, key, info)
                     if not basic(rec, g, a, 1, D, N, info):
                         continue
-                    if float(np.std(a)) < 1e-12:
-                        continue  # degenerate draw (no grid point inside any box): normalisation undefined, outside the contract
                     stats(rec, g, a, zm, so, mo, info)
                     f = gen.gen_ic_fun(key=jax.random.PRNGKey(key))
                     b2 = np.asarray(f(ex.make_grid(D, L, N)))
